@@ -264,6 +264,9 @@ func (t *trTranslator) translateClosureCtor(f *trFunc, ret *ast.ReturnStmt, cbs 
 			if x.Op == token.AND {
 				if id := trBaseIdent(x.X); id != nil {
 					if o, ok := info.Uses[id].(*types.Var); ok && !o.IsField() {
+						if _, isMapAddr := trAddrOfMap(info, x); isMapAddr {
+							return true // &m of a map: the map itself, state passing (trans_units_perf.go)
+						}
 						if _, isLit := x.X.(*ast.CompositeLit); !isLit {
 							trFail(x.Pos(), "taking the address of %s in a constructor of closures is outside the subset", id.Name)
 						}
@@ -340,6 +343,11 @@ func (t *trTranslator) translateClosureCtor(f *trFunc, ret *ast.ReturnStmt, cbs 
 		}
 	}
 	logs := t.findLogParams(c, info, opaqueOuter, cbs)
+	stdoutObj := t.stdoutLog(f, cbs) // fmt.Printf in a closure: the log `stdout` (trans_units_perf.go)
+	if stdoutObj != nil {
+		logs[stdoutObj] = &trLogVar{method: "Printf", typ: "(List Stdout.PrintfCall)"}
+		opaqueOuter = append(opaqueOuter, stdoutObj)
+	}
 	var logObjs []*types.Var
 	for _, v := range opaqueOuter {
 		if lv := logs[v]; lv != nil {
@@ -447,7 +455,7 @@ func (t *trTranslator) translateClosureCtor(f *trFunc, ret *ast.ReturnStmt, cbs 
 		cbFn := &trFunc{unit: f.unit, pkg: f.pkg, decl: f.decl, obj: f.obj, leanName: f.leanName + "." + trMangle(cb.field)}
 		cbFn.effect = t.nodeEffect(f.pkg, cb.lit.Body)
 		cc := &trCtx{t: t, fn: cbFn, names: map[types.Object]string{}, used: map[string]bool{"fuel": true}, opaqueParams: map[types.Object]bool{},
-			inCallback: true}
+			inCallback: true, stdoutObj: stdoutObj}
 		var ps []string
 		usedHere := map[types.Object]bool{}
 		ast.Inspect(cb.lit, func(n ast.Node) bool {
